@@ -28,6 +28,7 @@ type KafkaMdm struct {
 	numPartitions int32
 	brokers       []string
 	buf           chan []byte
+	shutdown      chan struct{} // closed by Shutdown. buf itself is never closed: a Dispatch may still be in flight
 	partitioner   *partitioner.Kafka
 	schemas       persister.WhisperSchemas
 	blocking      bool
@@ -72,6 +73,7 @@ func NewKafkaMdm(key string, matcher matcher.Matcher, topic, codec, schemasFile,
 		topic:     topic,
 		brokers:   brokers,
 		buf:       make(chan []byte, bufSize),
+		shutdown:  make(chan struct{}),
 		schemas:   schemas,
 		blocking:  blocking,
 		orgId:     orgId,
@@ -250,15 +252,19 @@ func (r *KafkaMdm) run() {
 			time.Sleep(100 * time.Millisecond)
 		}
 	}
+	shutdown := r.shutdown
 	for {
-		select {
-		case buf, ok := <-r.buf:
-			if !ok {
-				if len(metrics) != 0 {
-					flush()
-				}
-				return
+		// after Shutdown: handle what is still buffered, flush and stop
+		if shutdown == nil && len(r.buf) == 0 {
+			if len(metrics) != 0 {
+				flush()
 			}
+			return
+		}
+		select {
+		case <-shutdown:
+			shutdown = nil
+		case buf := <-r.buf:
 			r.numBuffered.Dec(1)
 			md, err := parseMetric(buf, r.schemas, r.orgId)
 			if err != nil {
@@ -279,6 +285,12 @@ func (r *KafkaMdm) run() {
 }
 
 func (r *KafkaMdm) Dispatch(buf []byte) {
+	select {
+	case <-r.shutdown:
+		// a dispatcher that still holds a table snapshot with this route in it. nothing reads buf anymore
+		return
+	default:
+	}
 	log.Tracef("kafkaMdm %q: sending to dest %v: %s", r.key, r.brokers, buf)
 	r.dispatch(r.buf, buf, r.numBuffered, r.numDropBuffFull)
 }
@@ -291,7 +303,7 @@ func (r *KafkaMdm) Flush() error {
 
 func (r *KafkaMdm) Shutdown() error {
 	//conf := r.config.Load().(Config)
-	close(r.buf)
+	close(r.shutdown)
 	return nil
 }
 
